@@ -47,6 +47,14 @@ def main():
                 verdict = "tie-or-proof-broken (no failing input)" if "no-failing-input-found" in outc else "FALSE ALARM (failing input reported)"
             res["checks"][p] = {"exit": rcc, "verdict": verdict, "output": "\n".join(lines)[-1200:]}
     sh(["git", "-C", "/repo", "worktree", "remove", "--force", WT])
+    if not res.get("applies") and meta.get("checked_by_main_session", {}).get("applies"):
+        meta["stale_at_repo_head"] = res.get("repo_head")
+        json.dump(meta, open(os.path.join(dst, "meta.json"), "w"), indent=1)
+        print(name, "does not apply to /repo HEAD any more: previous result kept")
+        return
+    prev = meta.get("checked_by_main_session", {}).get("checks", {})
+    for p_, c_ in prev.items():          # keep results of checks not re-run this time
+        res.setdefault("checks", {}).setdefault(p_, c_)
     meta["checked_by_main_session"] = res
     json.dump(meta, open(os.path.join(dst, "meta.json"), "w"), indent=1)
     print(name, {k: res.get(k) for k in ("applies", "builds", "own_tests_pass")}, {p: c["verdict"] for p, c in res.get("checks", {}).items()})
